@@ -174,9 +174,7 @@ func (e *Enc) encAlloc(fr *Frame, st *State, in *ssa.Alloc) {
 	r := e.allocRef(st, fr.prefix+hint)
 	p := &Val{T: in.Type(), L: []Sc{{r, "Int"}}}
 	fr.vals[in] = p
-	// zero-initialise (a write into the object just allocated: see noteLoopWrite)
-	e.storeRoot, e.storeFrame = in, fr
-	defer func() { e.storeRoot, e.storeFrame = nil, nil }()
+	// zero-initialise
 	loc := e.refLoc(r, el)
 	if loc.Kind == 'A' {
 		// array backing: zero contents
@@ -185,7 +183,9 @@ func (e *Enc) encAlloc(fr *Frame, st *State, in *ssa.Alloc) {
 			key := "S|" + typeStr(arr.Elem()) + "|" + lf.Path
 			sort := "(Array Int (Array Int " + lf.Sort + "))"
 			h := e.heapGet(st, key, sort)
-			e.heapSet(st, key, sort, "(store "+h+" "+r+" ((as const (Array Int "+lf.Sort+")) "+e.zero(lf.Sort)+"))")
+			e.withRef(r, func() {
+				e.heapSet(st, key, sort, "(store "+h+" "+r+" ((as const (Array Int "+lf.Sort+")) "+e.zero(lf.Sort)+"))")
+			})
 		}
 		return
 	}
@@ -221,34 +221,11 @@ func (e *Enc) encStore(fr *Frame, st *State, in *ssa.Store) {
 		e.nilCheck(fr, st, p, in.Pos(), "store")
 	}
 	loc := e.ptrLoc(p)
-	e.storeRoot, e.storeFrame = rootAlloc(in.Addr), fr
-	defer func() { e.storeRoot, e.storeFrame = nil, nil }()
 	if loc.Kind == 'A' {
 		e.storeArray(st, loc, v)
 		return
 	}
 	e.storeLoc(st, loc, v)
-}
-
-// rootAlloc: the allocation a store address is an interior pointer of (through field / array-element addressing).
-func rootAlloc(v ssa.Value) *ssa.Alloc {
-	for i := 0; i < 32; i++ {
-		switch x := v.(type) {
-		case *ssa.Alloc:
-			return x
-		case *ssa.FieldAddr:
-			v = x.X
-		case *ssa.IndexAddr:
-			if _, ok := x.X.Type().Underlying().(*types.Pointer); ok {
-				v = x.X // element of an array object; a slice element may belong to any backing array
-			} else {
-				return nil
-			}
-		default:
-			return nil
-		}
-	}
-	return nil
 }
 
 // storeArray stores a whole array value at a pointer-to-array location.
@@ -263,7 +240,7 @@ func (e *Enc) storeArray(st *State, loc *Loc, v *Val) {
 		key := "S|" + typeStr(arr.Elem()) + "|" + lf.Path
 		sort := "(Array Int (Array Int " + lf.Sort + "))"
 		h := e.heapGet(st, key, sort)
-		e.heapSet(st, key, sort, "(store "+h+" "+loc.Ref+" "+v.L[i].T+")")
+		e.withRef(loc.Ref, func() { e.heapSet(st, key, sort, "(store "+h+" "+loc.Ref+" "+v.L[i].T+")") })
 	}
 }
 
@@ -666,15 +643,19 @@ func (e *Enc) encConvert(fr *Frame, st *State, in *ssa.Convert) *Val {
 				r := e.allocRef(st, "bytes")
 				key, sort := "S|"+typeStr(sl.Elem())+"|", "(Array Int (Array Int Int))"
 				h := e.heapGet(st, key, sort)
-				e.heapSet(st, key, sort, "(store "+h+" "+r+" ("+f+" "+x.L[0].T+"))")
+				e.withRef(r, func() { e.heapSet(st, key, sort, "(store "+h+" "+r+" ("+f+" "+x.L[0].T+"))") })
 				ln := "(strlen " + x.L[0].T + ")"
 				e.assert("(<= 0 " + ln + ")")
-				// when the prelude declares `ghost func sbytes(s string) bytes`, the abstract content of []byte(s) is sbytes(s)
-				if g, ok := e.DB.Ghosts["sbytes"]; ok && g.Body == nil && len(g.Params) == 1 {
-					if gn, gs, err := e.ghostSymbol(g); err == nil && gs == "Bytes" {
-						bs := e.declFun("bseq", []string{"(Array Int Int)", "Int", "Int"}, "Bytes")
-						e.bytesInterpretation(bs)
-						e.assert("(= (" + bs + " (" + f + " " + x.L[0].T + ") 0 " + ln + ") (" + gn + " " + x.L[0].T + "))")
+				// []byte(s) has the abstract content strBytes(s) (when the prelude declares that ghost function)
+				if g, ok := e.DB.Ghosts["strBytes"]; ok && len(g.Params) == 1 && g.Body == nil {
+					if n, _, err := e.ghostSymbol(g); err == nil {
+						e.assert(eq(e.bseqTerm("("+f+" "+x.L[0].T+")", "0", ln), "("+n+" "+x.L[0].T+")"))
+						// and back: string([]byte(s)) == s
+						if g2, ok := e.DB.Ghosts["strOfBytes"]; ok && len(g2.Params) == 1 && g2.Body == nil {
+							if n2, _, err := e.ghostSymbol(g2); err == nil {
+								e.assert(eq("("+n2+" ("+n+" "+x.L[0].T+"))", x.L[0].T))
+							}
+						}
 					}
 				}
 				return &Val{T: in.Type(), L: []Sc{{r, "Int"}, {"0", "Int"}, {ln, "Int"}, {ln, "Int"}}}
@@ -690,6 +671,19 @@ func (e *Enc) encConvert(fr *Frame, st *State, in *ssa.Convert) *Val {
 				h := e.heapGet(st, key, sort)
 				t := "(" + f + " (select " + h + " " + x.L[0].T + ") " + x.L[1].T + " " + x.L[2].T + ")"
 				e.assert("(= (strlen " + t + ") " + x.L[2].T + ")")
+				// string(b) is a function of the abstract content of b (when the prelude declares ghost func strOfBytes)
+				if g, ok := e.DB.Ghosts["strOfBytes"]; ok && len(g.Params) == 1 && g.Body == nil {
+					if n, _, err := e.ghostSymbol(g); err == nil {
+						bs := e.bseqTerm("(select "+h+" "+x.L[0].T+")", x.L[1].T, x.L[2].T)
+						e.assert(eq(t, "("+n+" "+bs+")"))
+						// and back: []byte(string(b)) has the content of b
+						if g2, ok := e.DB.Ghosts["strBytes"]; ok && len(g2.Params) == 1 && g2.Body == nil {
+							if n2, _, err := e.ghostSymbol(g2); err == nil {
+								e.assert(eq("("+n2+" "+t+")", bs))
+							}
+						}
+					}
+				}
 				return &Val{T: in.Type(), L: []Sc{{t, "Str"}}}
 			}
 		}
@@ -838,7 +832,9 @@ func (e *Enc) encMakeSlice(fr *Frame, st *State, in *ssa.MakeSlice) *Val {
 		key := "S|" + typeStr(sl.Elem()) + "|" + lf.Path
 		sort := "(Array Int (Array Int " + lf.Sort + "))"
 		h := e.heapGet(st, key, sort)
-		e.heapSet(st, key, sort, "(store "+h+" "+r+" ((as const (Array Int "+lf.Sort+")) "+e.zero(lf.Sort)+"))")
+		e.withRef(r, func() {
+			e.heapSet(st, key, sort, "(store "+h+" "+r+" ((as const (Array Int "+lf.Sort+")) "+e.zero(lf.Sort)+"))")
+		})
 	}
 	return &Val{T: in.Type(), L: []Sc{{r, "Int"}, {"0", "Int"}, {ln, "Int"}, {cp, "Int"}}}
 }
@@ -932,7 +928,7 @@ func (e *Enc) mapInit(st *State, mt types.Type, r string) {
 		return
 	}
 	h := e.heapGet(st, dk, ds)
-	e.heapSet(st, dk, ds, "(store "+h+" "+r+" ((as const (Array "+ksort+" Bool)) false))")
+	e.withRef(r, func() { e.heapSet(st, dk, ds, "(store "+h+" "+r+" ((as const (Array "+ksort+" Bool)) false))") })
 }
 
 func (e *Enc) mapKeyTerm(k *Val) string {
@@ -994,7 +990,7 @@ func (e *Enc) encMapUpdate(fr *Frame, st *State, in *ssa.MapUpdate) {
 
 func (e *Enc) mapStore(st *State, mt types.Type, m, kt string, v *Val, ksort, dk, ds string, vleaves []Leaf) {
 	dom := e.heapGet(st, dk, ds)
-	e.heapSet(st, dk, ds, "(store "+dom+" "+m+" (store (select "+dom+" "+m+") "+kt+" true))")
+	e.withRef(m, func() { e.heapSet(st, dk, ds, "(store "+dom+" "+m+" (store (select "+dom+" "+m+") "+kt+" true))") })
 	if len(v.L) != len(vleaves) {
 		e.unsupportedf("map value shape mismatch for %s", typeStr(mt))
 		return
@@ -1002,7 +998,7 @@ func (e *Enc) mapStore(st *State, mt types.Type, m, kt string, v *Val, ksort, dk
 	for i, lf := range vleaves {
 		key, sort := mapValKey(mt, lf, ksort)
 		h := e.heapGet(st, key, sort)
-		e.heapSet(st, key, sort, "(store "+h+" "+m+" (store (select "+h+" "+m+") "+kt+" "+v.L[i].T+"))")
+		e.withRef(m, func() { e.heapSet(st, key, sort, "(store "+h+" "+m+" (store (select "+h+" "+m+") "+kt+" "+v.L[i].T+"))") })
 	}
 }
 
@@ -1014,7 +1010,7 @@ func (e *Enc) mapDelete(st *State, mt types.Type, m, kt string) {
 	}
 	dom := e.heapGet(st, dk, ds)
 	// delete on nil map is a no-op; ref 0 has an empty domain by convention, storing false keeps it empty
-	e.heapSet(st, dk, ds, "(store "+dom+" "+m+" (store (select "+dom+" "+m+") "+kt+" false))")
+	e.withRef(m, func() { e.heapSet(st, dk, ds, "(store "+dom+" "+m+" (store (select "+dom+" "+m+") "+kt+" false))") })
 }
 
 // ---------- range ----------
